@@ -886,7 +886,9 @@ func (g *gen) exotic() string {
 	if !g.r.Chance(12) {
 		return ""
 	}
-	xs := []string{"1e19", "1e300", "inf", "2p63", "1e13", "max", "-inf", "-1e19", "nan", "0.9", "str"}
+	// (numbers only: a delay given as the string "1e19" goes through goja's string-to-integer conversion, which
+	// overflows to a negative number -- a quirk of the engine, and strings are not among the property's delays)
+	xs := []string{"1e19", "1e300", "inf", "2p63", "1e13", "max", "-inf", "-1e19", "nan", "0.9"}
 	x := xs[g.r.Intn(len(xs))]
 	g.st.Hit("jsdelay:" + x)
 	return x
